@@ -11,6 +11,7 @@ mod itermc;
 mod strmc;
 mod serdemc;
 mod fmtmc;
+mod laymc;
 mod workers;
 mod run;
 mod hostobj;
@@ -65,6 +66,7 @@ fn main() {
         "strmc" => strmc::run(&args),
         "serdemc" => serdemc::run(&args),
         "fmtmc" => fmtmc::run(&args),
+        "laymc" => laymc::run(&args),
         "progmc-core" => progmc::run_profile(
             &args,
             run::RunCfg::default(),
